@@ -1,13 +1,13 @@
-SPECIFICATION Spec
+SPECIFICATION SpecSeededF
 CONSTANTS
   NG = 6
   Classes <- Cls4
   Adv <- AdvF
   GAttr <- GAttrF
-  MaxRules = 3
-  MaxPasses = 3
+  MaxRules = 4
+  MaxPasses = 4
   MaxLen = 4
-  MaxText = 6
+  MaxText = 4
   Rtl = 0
   NFeat = 2
   Ops <- OpsAll
